@@ -770,7 +770,8 @@ async def op_resource(env, ctx, step):
     else:
         shadow.update(step['amounts'])
         await res.set(**step['amounts'])
-    return sorted(dict(res.levels).items())
+    # (the order in which the levels are listed is observable: not sorted here)
+    return [list(pair) for pair in res.levels]
 
 
 async def op_transfer(env, ctx, step):
